@@ -276,5 +276,96 @@ func runC12(cfg runCfg) {
 		os.RemoveAll(root)
 	}
 	w.flush()
+	c12Probes(cfg, rep, casesF, caseID)
 	rep.write(cfg.out)
+}
+
+// effect probe for arg:context:regex: the regex in effect for a method (method > converter > -g) decides whether an
+// extra parameter is a context (accepted) or a second source (rejected). All 27 combinations x 2 probe names.
+func c12Probes(cfg runCfg, rep *Report, casesF *os.File, caseID int) {
+	w := &shardWriter{dir: cfg.out, stem: "C12P", max: 400, rep: rep, off: cfg.oracleOnly,
+		header:  "From Coq Require Import List NArith String.\nFrom GV Require Import Base Ty Conf Comment Settings.\nImport ListNotations. Open Scope N_scope.",
+		ctype:   "N * list rstr * list rstr * list rstr * rstr * bool",
+		trailer: "(* (id, -g lines, converter lines, method lines, name of the extra parameter, accepted?) : accepted iff the regex in effect is ^name$ *)\nDefinition bad (c : N * list rstr * list rstr * list rstr * rstr * bool) : bool :=\n  let '(_, g, cv, m, probe, acc) := c in\n  match method_common g cv m with\n  | Ok r => negb (Bool.eqb (rstr_eqb (c_ArgContextRegex r) (94 :: probe ++ [36])) acc)\n  | _ => true\n  end.\nDefinition M := Eval vm_compute in map (fun c => fst (fst (fst (fst (fst c))))) (filter bad cases). Print M.\n"}
+	vals := []string{"", "^ctxA$", "^ctxB$"}
+	for gi, gv := range vals {
+		root := filepath.Join(cfg.out, fmt.Sprintf("probe%d", gi))
+		must(os.MkdirAll(filepath.Join(root, "p"), 0o755))
+		must(os.WriteFile(filepath.Join(root, "go.mod"), []byte("module example.org/m\n\ngo 1.22\n"), 0o644))
+		var sb strings.Builder
+		sb.WriteString("package p\n\ntype In struct{ A int }\ntype Out struct{ A int }\n\n")
+		type pc struct {
+			name, cv, mv, probe string
+		}
+		var pcs []pc
+		n := 0
+		for _, cv := range vals {
+			for _, mv := range vals {
+				for _, probe := range []string{"ctxA", "ctxB"} {
+					name := fmt.Sprintf("P%d", n)
+					n++
+					sb.WriteString("// goverter:converter\n")
+					if cv != "" {
+						sb.WriteString("// goverter:arg:context:regex " + cv + "\n")
+					}
+					fmt.Fprintf(&sb, "type %s interface {\n", name)
+					if mv != "" {
+						sb.WriteString("\t// goverter:arg:context:regex " + mv + "\n")
+					}
+					fmt.Fprintf(&sb, "\tConv(source In, %s string) Out\n}\n\n", probe)
+					pcs = append(pcs, pc{name, cv, mv, probe})
+				}
+			}
+		}
+		must(os.WriteFile(filepath.Join(root, "p", "conv.go"), []byte(sb.String()), 0o644))
+		var globals []string
+		if gv != "" {
+			globals = []string{"arg:context:regex " + gv}
+		}
+		raw, err := comments.ParseDocs(comments.ParseDocsConfig{PackagePattern: []string{"./p"}, WorkingDir: root, BuildTags: "goverter"})
+		if err != nil {
+			rep.Notes = append(rep.Notes, "probe ParseDocs: "+err.Error())
+			continue
+		}
+		_, errs, err := config.VerifParseEach(&config.Raw{Converters: raw, WorkDir: root, BuildTags: "goverter", Global: config.RawLines{Location: "command line (-g, -global)", Lines: globals}})
+		if err != nil {
+			rep.Notes = append(rep.Notes, "probe VerifParseEach: "+err.Error())
+			continue
+		}
+		byName := map[string]int{}
+		for i, rc := range raw {
+			byName[rc.InterfaceName] = i
+		}
+		for _, c := range pcs {
+			i := byName[c.name]
+			accepted := errs[i] == nil
+			eff := gv
+			if c.cv != "" {
+				eff = c.cv
+			}
+			if c.mv != "" {
+				eff = c.mv
+			}
+			want := eff == "^"+c.probe+"$"
+			var cl, ml []string
+			cl = []string{"converter"}
+			if c.cv != "" {
+				cl = append(cl, "arg:context:regex "+c.cv)
+			}
+			if c.mv != "" {
+				ml = []string{"arg:context:regex " + c.mv}
+			}
+			replay := map[string]interface{}{"global": globals, "converter_lines": cl, "method_lines": ml, "extra_parameter": c.probe, "accepted": accepted}
+			rep.eval(fmt.Sprintf("probe|%s|%s|%s|%s", gv, c.cv, c.mv, c.probe), true)
+			rep.count(fmt.Sprintf("probe-accepted=%v", accepted))
+			if accepted != want {
+				rep.violate(Violation{CaseID: fmt.Sprint(caseID), What: fmt.Sprintf("arg:context:regex in effect should be %q (method > converter > -g) but parameter %s is accepted=%v", eff, c.probe, accepted), Sig: "effect-probe-context-regex", Replay: replay})
+			}
+			fmt.Fprintf(casesF, "{\"id\":%d,\"replay\":{\"global\":%q,\"converter_lines\":%q,\"method_lines\":%q,\"probe\":%q}}\n", caseID, globals, cl, ml, c.probe)
+			w.add(fmt.Sprintf("(%d, %s, %s, %s, %s, %s)", caseID, coqLines(globals), coqLines(cl), coqLines(ml), runes(c.probe), coqBool(accepted)))
+			caseID++
+		}
+		os.RemoveAll(root)
+	}
+	w.flush()
 }
